@@ -118,6 +118,10 @@ func (cv0 *HookConfigV0) ConvertAndCheck(c *HookConfig) error {
 			kubeConfig.BindingName = kubeCfg.Name
 		}
 		kubeConfig.Queue = "main"
+		// The v0 binding context is rendered from the full object
+		// (resourceNamespace, resourceKind, resourceName), so keep it.
+		kubeConfig.KeepFullObjectsInMemory = true
+		kubeConfig.Monitor.KeepFullObjectsInMemory = true
 
 		c.OnKubernetesEvents = append(c.OnKubernetesEvents, kubeConfig)
 	}
